@@ -4,9 +4,14 @@
    is stated over Block.Model.size / buffer_size, i.e. over Gen.BlockConsts
    (regenerated from the source on every run).  All quantifiers are unbounded:
    every body, every SZX 0..7, every maximum message size, every order and
-   repetition of blocks, every mix of tokens. *)
-From Coq Require Import ZArith Bool List.
-From GoCoap Require Import Base.Bytes Block.Model Blockwise.Config Blockwise.Model Blockwise.Proofs.
+   repetition of blocks, every mix of tokens.  The second half (C04_exchange_...)
+   is about the closed two-party system of Blockwise/Model.v (endpoints A and B, the
+   network, an event script of arbitrary length) and is proved in
+   Blockwise/ProofsExchange.v by induction over the script. *)
+From Coq Require Import ZArith Bool List Lia.
+From GoCoap Require Import Base.Bytes Block.Model Blockwise.Config Blockwise.Model Blockwise.Spec Blockwise.Proofs Blockwise.Run
+  Blockwise.ProofsExchange Blockwise.ProofsProgressDown.
+From GoCoap Require Blockwise.ProofsProgressUp Blockwise.ProofsProgressBoth.
 Import ListNotations.
 Open Scope Z_scope.
 
@@ -89,16 +94,16 @@ Theorem C04_isolated : forall app, (forall t d w, app t d = Some w -> mtok w = t
 Proof. exact handle_isolated. Qed.
 Print Assumptions C04_isolated.
 
-(* C04_progress_partial.  Full statement (NOT proved, see notes/C04.md): with no
-   faults every exchange of the two-endpoint model completes within
-   ceil(|body| / size) + 1 round trips.  Proved: the lock-step core of a download
-   (Block2) - receiver asks for block |buffer|/size, createSendingMessage serves it,
-   the reassembly step appends it - ends with the exact body within
-   (remaining / buffer) + 1 round trips, for every body, every SZX and every
-   maximum message size with a non-empty buffer (BERT: >= 1024).  Uploads are
-   covered by the correspondence runs only; observations O1 (one-way POST/PUT skips
-   block 0) and O2 (BERT upload of 1024 < |body| <= buffer) are the cases where the
-   implementation itself makes no progress. *)
+(* C04_progress_partial.  The lock-step core of a download (Block2) - receiver asks
+   for block |buffer|/size, createSendingMessage serves it, the reassembly step appends
+   it - ends with the exact body within (remaining / buffer) + 1 round trips, for every
+   body, every SZX and every maximum message size with a non-empty buffer (BERT: >= 1024).
+   Progress of the full two-endpoint run (Start, then deliver in order) is proved further
+   down: C04_progress_download (Do GET), C04_progress_upload* (Do POST/PUT, one-way
+   writes), with the regions where the implementation itself makes no progress - O1
+   (one-way POST/PUT skips block 0), O2 (BERT upload of 1024 < |body| < buffer) - and O3
+   (single-block response keeps its state) as explicit hypotheses, each with its
+   refutation. *)
 Theorem C04_progress_partial : forall fuel orig s m cm j,
   is_upload (mcode orig) = false -> 0 <= s <= 7 -> 0 <= m -> 0 < buffer_size s m ->
   prefix (mbody cm) (mbody orig) -> 0 <= j -> blen (mbody cm) = j * buffer_size s m ->
@@ -108,6 +113,147 @@ Theorem C04_progress_partial : forall fuel orig s m cm j,
                 1 <= n <= (blen (mbody orig) - blen (mbody cm)) / buffer_size s m + 1.
 Proof. exact download_progress. Qed.
 Print Assumptions C04_progress_partial.
+
+(* ------------------------------------------------------------------------ *)
+(* The two-party system, ALL fault scripts.                                    *)
+(* [cfg_wf c]: SZX 0..7 on both sides (7 = BERT), every exchange is started by  *)
+(* A (Do or one-way write) with a request code, application tokens are pairwise *)
+(* distinct and below FRESH, GET/DELETE requests carry no body, no out-of-band  *)
+(* registration for an exchange token, resource lengths >= 0.                   *)
+(* [bump_ok c] on every event: a resource that changes carries an ETag (without *)
+(* ETags RFC 7959 itself cannot tell versions apart).  The script is otherwise  *)
+(* arbitrary: Start i (also repeatedly), Deliver j (any in-flight message, so   *)
+(* any reordering), Dup j, Drop j, Replay h (anything ever sent), Bump k,        *)
+(* Timeout i, Expire side.                                                      *)
+
+(* (a) Safety.  Every message handed to B's application has the token, code and
+   options of an exchange A's application started and carries exactly its body
+   (or is the body-less request that restarts a block-wise response to a POST/PUT:
+   the finding, see C04_exchange_safety_unrestricted_refuted); every message handed
+   to A's application is body-less (4.08 / 2.31) or has the code, options and ETag
+   of one version v <= number of changes of the resource of its exchange and exactly
+   that version's body.  Never a partial, extended or mixed body. *)
+Theorem C04_exchange_safety : forall c, cfg_wf c -> forall es, Forall (bump_ok c) es ->
+  Forall (mob_ok c (bumps es)) (run c (init c) es).
+Proof. exact exchange_safety. Qed.
+Print Assumptions C04_exchange_safety.
+
+(* ... the same in the terms of the specification: class 0 of Spec.delivery_class for
+   every delivery of the model's trace, except that restart request *)
+Theorem C04_exchange_safety_spec : forall c, cfg_wf c -> forall es, Forall (bump_ok c) es ->
+  Forall (fun o => Forall (fun d => delivery_class c es (o_side o) d = 0%N \/ (o_side o = 1 /\ restart_pm d)) (o_deliv o))
+         (model_obs c es).
+Proof. exact exchange_safety_spec. Qed.
+Print Assumptions C04_exchange_safety_spec.
+
+(* ... and without exception when no response to a POST/PUT is block-wise (every
+   version of the resource behind an upload exchange is shorter than 16 bytes) *)
+Theorem C04_exchange_safety_exact : forall c, cfg_wf c -> forall es, Forall (bump_ok c) es ->
+  small_upload_responses c es ->
+  Forall (fun o => Forall (fun d => delivery_class c es (o_side o) d = 0%N) (o_deliv o)) (model_obs c es).
+Proof. exact exchange_safety_spec_exact. Qed.
+Print Assumptions C04_exchange_safety_exact.
+
+(* The full-strength statement (no hypothesis on the responses of uploads) is FALSE of
+   the faithful model and of the code: two witnesses (a well-formed configuration and a
+   script each) on which the specification reports class 1, body-differs-from-supplied.
+   Replayed on the Go code (harness descriptor and a Go test, see notes/C04.md). *)
+Theorem C04_exchange_safety_unrestricted_refuted :
+  (cfg_wf refute_cfg1 /\ Forall (bump_ok refute_cfg1) refute_es1 /\
+   c04_class refute_cfg1 refute_es1 (model_obs refute_cfg1 refute_es1) = 1%N) /\
+  (cfg_wf refute_cfg2 /\ Forall (bump_ok refute_cfg2) refute_es2 /\
+   c04_class refute_cfg2 refute_es2 (model_obs refute_cfg2 refute_es2) = 1%N).
+Proof. exact exchange_safety_unrestricted_refuted. Qed.
+Print Assumptions C04_exchange_safety_unrestricted_refuted.
+
+(* (b) Exactly once.  At either application and for every token, the number of bodies
+   handed over never exceeds the number of arrivals of a first message of a transfer
+   (no Block option of the direction, or NUM = 0): a replayed last block (F15), a
+   duplicated or stale request for a later block of a response, re-ordered or replayed
+   middle blocks never produce a second delivery.  Step lemma: C04_once_potential. *)
+Theorem C04_exchange_once_counts : forall c, cfg_wf c -> forall es, Forall (bump_ok c) es ->
+  forall side t, handed (model_obs c es) side t <= arrivals (model_obs c es) side t.
+Proof. exact exchange_once_counts. Qed.
+Print Assumptions C04_exchange_once_counts.
+Theorem C04_exchange_once : forall c, cfg_wf c -> forall es, Forall (bump_ok c) es -> once_ok (model_obs c es) = true.
+Proof. exact exchange_once. Qed.
+Print Assumptions C04_exchange_once.
+
+(* the step behind it, for ANY application, state and (non-notification) message:
+   (bodies handed over) + (1 if a non-empty reassembly buffer exists for the token)
+   grows only when a first block arrives *)
+Theorem C04_once_potential : forall app e r,
+  is_observe_response r = false ->
+  (forall cm, tget (receiving e) (mtok r) = Some cm -> mtok cm = mtok r) ->
+  let '(e', _, d, _) := handle app e r in once_post e e' (mtok r) (fb r) d.
+Proof. exact handle_once_pot. Qed.
+Print Assumptions C04_once_potential.
+
+(* The whole property as specified (Spec.c04_ok: exact body, exactly once, options
+   preserved, known token, a Do that returns ok got its response, no panic / hang mark)
+   on the model's trace of EVERY script. *)
+Theorem C04_exchange_ok : forall c, cfg_wf c -> forall es, Forall (bump_ok c) es ->
+  small_upload_responses c es -> c04_ok c es (model_obs c es) = true.
+Proof. exact exchange_c04_ok. Qed.
+Print Assumptions C04_exchange_ok.
+
+(* (c) Isolation over whole runs.  For every script and every application token t there
+   is a script that starts only exchanges with token t, in whose run every message ever
+   on the wire carries token t, and in which the applications are handed exactly the
+   same messages for t, at the same sides, in the same order: what happens to one token
+   never depends on the concurrent exchanges, their faults and their blocks.  Step
+   lemmas: C04_isolated (frame) and C04_handle_congruence. *)
+Theorem C04_exchange_isolated : forall c, cfg_wf c -> forall t es, 0 <= t < FRESH -> Forall (bump_ok c) es ->
+  exists es', solo_ok c t es' /\ Forall (bump_ok c) es' /\ (forall k, bumps es' k = bumps es k) /\
+              (forall p, In p (whist (exec c (init c) es')) -> mtok (snd p) = t) /\
+              flat_map (tdeliv t) (run c (init c) es) = flat_map (tdeliv t) (run c (init c) es').
+Proof. exact exchange_isolated. Qed.
+Print Assumptions C04_exchange_isolated.
+
+(* Handle reads only the state of the token of the message: two endpoints that agree on
+   it produce the same response, the same deliveries, the same error count and agree on
+   it afterwards *)
+Theorem C04_handle_congruence : forall app, (forall t d w, app t d = Some w -> mtok w = t) ->
+  forall e1 e2 r, is_observe_response r = false -> agree_at (mtok r) e1 e2 ->
+  (forall m0, tget (sending e1) (mtok r) = Some m0 -> mtok m0 = mtok r) ->
+  let '(e1', o1, d1, n1) := handle app e1 r in
+  let '(e2', o2, d2, n2) := handle app e2 r in
+  o1 = o2 /\ d1 = d2 /\ n1 = n2 /\ agree_at (mtok r) e1' e2' /\ (forall wm, o1 = Some wm -> mtok wm = mtok r).
+Proof. exact handle_congr. Qed.
+Print Assumptions C04_handle_congruence.
+
+(* "Never a partial body presented as complete, and never by hanging".
+   - the expiry sweep (CheckExpirations past the deadline), in ANY state, leaves both
+     tables of that side empty: whatever an interrupted exchange left is removed; *)
+Theorem C04_expire_clears : forall c w atB,
+  let w' := fst (step c w (Expire atB)) in
+  let e' := if atB then wb w' else wa w' in sending e' = [] /\ receiving e' = [].
+Proof. exact expire_clears. Qed.
+Print Assumptions C04_expire_clears.
+(* - after the sweep, whatever the script did before and does afterwards, every body
+     handed to that side's application is paid for by a first message that arrived AFTER
+     the sweep: nothing of the interrupted transfer can be completed and delivered; *)
+Theorem C04_expire_forgets : forall c, cfg_wf c -> forall es1 atB es2,
+  Forall (bump_ok c) (es1 ++ Expire atB :: es2) ->
+  let side := if atB then 1 else 0 in
+  let after := map proj_mob (run c (exec c (init c) (es1 ++ [Expire atB])) es2) in
+  forall t, handed after side t <= arrivals after side t.
+Proof. exact expire_forgets. Qed.
+Print Assumptions C04_expire_forgets.
+(* - every error outcome of processReceivedMessage hands nothing to the application; *)
+Theorem C04_error_delivers_nothing : forall app e r mx isb1,
+  let '(_, o, d) := process_received app e r mx isb1 in o = Fail -> d = [].
+Proof. exact pr_error_nothing. Qed.
+Print Assumptions C04_error_delivers_nothing.
+(* - when Handle reports an error, either nothing was handed over, or a complete message
+     was (covered by safety) and the error is the failure to start the block-wise transfer
+     of the application's own answer (>= 16 bytes) to it. *)
+Theorem C04_handle_error_outcome : forall app e r,
+  0 <= eszx e <= 7 -> (forall b, mb1 r = Some b \/ mb2 r = Some b -> 0 <= bszx b) ->
+  let '(_, _, d, nerr) := handle app e r in
+  nerr <> 0 -> d = [] \/ exists x wm, d = [x] /\ app (mtok r) x = Some wm /\ 16 <= blen (mbody wm).
+Proof. exact handle_error_outcome. Qed.
+Print Assumptions C04_handle_error_outcome.
 
 (* Non-vacuity: a three-block body served at SZX 0 and reassembled from its blocks
    delivered in the order 1, 0, 0, 1, 2, 2 (out of order, duplicated, final block
@@ -130,3 +276,218 @@ Example C04_nonvacuous :
   = [ex_body]
   /\ blen (mbody (ex_block 2)) = 5 /\ mb2 (ex_block 2) = Some {| bszx := 0; bnum := 2; bmore := false |}.
 Proof. vm_compute. repeat split. Qed.
+
+(* ------------------------------------------------------------------------ *)
+(* Progress without faults, full two-endpoint run (Blockwise/ProofsProgressDown.v). *)
+(* Script: Start i, then n times "deliver the oldest in-flight message".        *)
+(* [get_done c i x n handed wbf sizes]: in that run B's application is handed    *)
+(* exactly one message, the request; A's application exactly one, [handed]; no   *)
+(* error callback fires; the Do returns ok in the last step and not before; at   *)
+(* the end A is back in its initial state, B's endpoint is [wbf], nothing is in   *)
+(* flight or pending, the four table sizes are [sizes].                          *)
+
+(* Do GET, every body length L, every SZX pair 0..7 (7 = BERT with max message size
+   >= 1024): completes with the exact body (code, token, ETag, Content-Format of the
+   response; no Block/Size option left) after q round trips, q = 1 for L < size szxB
+   (plain request/response), otherwise q = 1 + ceil((L - B0) / Bs) <= ceil(L / size min)
+   with B0 = buffer_size szxB maxB and Bs = buffer_size (min szxA szxB) maxB; all tables
+   empty at the end.  The hypothesis excludes O3: size szxB <= L <= B0, where the response
+   is a single block (see C04_progress_download_single_block). *)
+Theorem C04_progress_download : forall c i x r,
+  nth_error (cexch c) i = Some x -> xkind x = 0 -> xcode x = GET -> xlen x = 0 ->
+  nth_error (cres c) (Z.to_nat (xpath x)) = Some r ->
+  0 <= cszxA c <= 7 -> 0 <= cszxB c <= 7 -> (cszxB c = 7 -> 1024 <= cmaxB c) ->
+  let L := blen (res_body r 0) in
+  let B0 := buffer_size (cszxB c) (cmaxB c) in
+  let s := Z.min (cszxA c) (cszxB c) in
+  let Bs := buffer_size s (cmaxB c) in
+  (L < size (cszxB c) \/ B0 < L) ->
+  exists q : nat,
+    (1 <= q)%nat /\ Z.of_nat q <= (L + size s - 1) / size s + 1 /\
+    (L < size (cszxB c) -> q = 1%nat) /\
+    (B0 < L -> (Z.of_nat q - 2) * Bs < L - B0 <= (Z.of_nat q - 1) * Bs /\ Z.of_nat q <= (L + size s - 1) / size s) /\
+    get_done c i x (2 * q) (get_resp x r) (wb (init c)) [0; 0; 0; 0].
+Proof. exact get_progress. Qed.
+Print Assumptions C04_progress_download.
+
+(* O3 (found by this proof): a response of exactly one block (BERT: up to maxB/1024
+   blocks), size szxB <= L <= B0.  B sends it as Block2 NUM 0 M=0; the Do returns ok with
+   the exact body after one round trip, but A's application is handed the block message
+   itself (Block2 / Size2 options still on it) and B keeps the response in its sending
+   table (sizes [0;0;1;0]) until the expiry sweep: delivered exactly once, exact body,
+   state not released.  The run stays there for every longer script. *)
+Theorem C04_progress_download_single_block : forall c i x r,
+  nth_error (cexch c) i = Some x -> xkind x = 0 -> xcode x = GET -> xlen x = 0 ->
+  nth_error (cres c) (Z.to_nat (xpath x)) = Some r ->
+  0 <= cszxA c <= 7 -> 0 <= cszxB c <= 7 ->
+  let L := blen (res_body r 0) in
+  let B0 := buffer_size (cszxB c) (cmaxB c) in
+  size (cszxB c) <= L <= B0 ->
+  get_done c i x 2 (blk_msg (get_resp x r) (cszxB c) 0 B0)
+           (with_sending (wb (init c)) [(xtok x, get_resp x r)]) [0; 0; 1; 0] /\
+  mbody (blk_msg (get_resp x r) (cszxB c) 0 B0) = res_body r 0 /\
+  mb2 (blk_msg (get_resp x r) (cszxB c) 0 B0) = Some {| bszx := cszxB c; bnum := 0; bmore := false |} /\
+  ms2 (blk_msg (get_resp x r) (cszxB c) 0 B0) = Some L.
+Proof. exact get_single_block. Qed.
+Print Assumptions C04_progress_download_single_block.
+
+(* The block-wise download phase from a generic mid-state (any request code GET..DELETE,
+   so also the response of a POST/PUT; any response message; first block served with
+   SZX s0 <= szxB), for composition with an upload phase. *)
+Theorem C04_download_phase : forall c tok req resp sA sB mB s0,
+  GET <= mcode req <= DELETE -> mtok resp = tok -> resp_code_ok (mcode resp) -> mobs resp = None ->
+  0 <= sA <= 7 -> 0 <= s0 <= sB -> sB <= 7 -> (s0 = 7 -> 1024 <= mB) ->
+  forall w, at_first tok req resp sA sB mB s0 w ->
+  buffer_size s0 mB < blen (mbody resp) -> In tok (map snd (pending w)) ->
+  exists q : nat,
+    (1 <= q)%nat /\
+    (Z.of_nat q - 1) * buffer_size (Z.min sA s0) mB < blen (mbody resp) - buffer_size s0 mB
+      <= Z.of_nat q * buffer_size (Z.min sA s0) mB /\
+    let es := repeat (Deliver 0%nat) (1 + 2 * q) in
+    done_world tok w (run_w c w es) /\ done_obs tok resp w (run_w c w es) (run c w es) [].
+Proof. exact download_phase. Qed.
+Print Assumptions C04_download_phase.
+
+(* Uploads (Blockwise/ProofsProgressUp.v; its names are used qualified, Up.x).      *)
+Module Up := GoCoap.Blockwise.ProofsProgressUp.
+
+(* Do POST/PUT, every body length, every SZX pair 0..7 (a BERT sender has max message
+   size >= 1024), response of B's application shorter than 16 bytes (not block-wise):
+   B's application is handed exactly one message, the request with its exact body and
+   without Block1/Size1; A's application exactly the response; no error; the Do returns
+   ok once, in the last step; tables empty; after exactly [Up.upload_rounds] round trips,
+   at most ceil(|body| / block) + 1 with block = size (min szxA szxB) (after a
+   down-negotiation the sender re-sends overlapping blocks until the offsets meet again).
+   Hypothesis: outside O2. *)
+Theorem C04_progress_upload : forall c i x r,
+  nth_error (cexch c) i = Some x -> xkind x = 0 -> xcode x = 2 \/ xcode x = 3 -> 0 <= xlen x ->
+  0 <= cszxA c <= 7 -> 0 <= cszxB c <= 7 -> 0 <= cmaxA c -> (cszxA c = 7 -> 1024 <= cmaxA c) ->
+  nth_error (cres c) (Z.to_nat (xpath x)) = Some r -> rlen r < 16 ->
+  ~ Up.o2_region c (xlen x) ->
+  let n := (2 * Z.to_nat (Up.upload_rounds c (xlen x)))%nat in
+  let script := Start i :: repeat (Deliver 0) n in
+  let tr := run c (init c) script in
+  let block := size (Z.min (cszxA c) (cszxB c)) in
+  Up.deliv_to 1 tr = [request_of x] /\
+  Up.deliv_to 0 tr = [Up.response_of c x r] /\
+  Forall (fun o => mo_err o = 0) tr /\
+  concat (map mo_ret tr) = [(Z.of_nat i, 0)] /\ mo_ret (last tr Up.no_mob) = [(Z.of_nat i, 0)] /\
+  mo_sizes (last tr Up.no_mob) = [0; 0; 0; 0] /\
+  flight (Up.exec c (init c) script) = [] /\
+  1 <= Up.upload_rounds c (xlen x) <= (xlen x + block - 1) / block + 1.
+Proof. exact Up.C04_upload_progress. Qed.
+Print Assumptions C04_progress_upload.
+
+(* O2, exact region (narrower than first recorded): a BERT sender, 1024 < |body| < its
+   buffer, and the receiver is BERT too or |body| is not a multiple of the receiver's
+   block size.  There, for EVERY longer script: nothing is ever handed to either
+   application, the Do does not return (it ends by its time-out), exactly one error
+   callback fires (at the sender, which seeks past the end of the body), and B's
+   reassembly entry stays until the expiry sweep: an error / time-out, never a partial
+   body. *)
+Theorem C04_progress_upload_O2_refuted : forall c i x,
+  nth_error (cexch c) i = Some x -> xkind x = 0 -> xcode x = 2 \/ xcode x = 3 -> 0 <= xlen x ->
+  0 <= cszxA c <= 7 -> 0 <= cszxB c <= 7 -> 0 <= cmaxA c -> (cszxA c = 7 -> 1024 <= cmaxA c) ->
+  Up.o2_region c (xlen x) ->
+  let bm := buffer_size (Z.min (cszxA c) (cszxB c)) (cmaxA c) in
+  let n0 := (2 * Z.to_nat (xlen x / bm) + 2)%nat in
+  forall n,
+  let script := Start i :: repeat (Deliver 0) (n0 + n) in
+  let tr := run c (init c) script in
+  Up.deliv_to 1 tr = [] /\ Up.deliv_to 0 tr = [] /\ concat (map mo_ret tr) = [] /\
+  Up.err_count tr = 1 /\ Exists (fun o => mo_side o = 0 /\ mo_err o = 1 /\ mo_wire o = None) tr /\
+  mo_sizes (last tr Up.no_mob) = [0; 0; 0; 1] /\
+  flight (Up.exec c (init c) script) = [].
+Proof. exact Up.C04_upload_O2_refuted. Qed.
+Print Assumptions C04_progress_upload_O2_refuted.
+
+(* O1: a one-way write (WriteMessage) of a POST/PUT with |body| >= size szxA skips block 0
+   (createSendingMessage adds the buffer length to the offset for Block1): for every script
+   length nothing is ever handed to B's application ... *)
+Theorem C04_progress_write_O1_nothing : forall c i x,
+  nth_error (cexch c) i = Some x -> xkind x = 1 -> xcode x = 2 \/ xcode x = 3 -> 0 <= xlen x ->
+  0 <= cszxA c <= 7 -> 0 <= cszxB c <= 7 -> 0 <= cmaxA c -> (cszxA c = 7 -> 1024 <= cmaxA c) ->
+  size (cszxA c) <= xlen x ->
+  forall n, Up.deliv_to 1 (run c (init c) (Start i :: repeat (Deliver 0) n)) = [].
+Proof. exact Up.C04_write_O1_nothing. Qed.
+Print Assumptions C04_progress_write_O1_nothing.
+(* ... while a one-way write below the block size is delivered exactly once, exactly. *)
+Theorem C04_progress_write_small : forall c i x r,
+  nth_error (cexch c) i = Some x -> xkind x = 1 -> xcode x = 2 \/ xcode x = 3 -> 0 <= xlen x ->
+  0 <= cszxA c <= 7 -> 0 <= cszxB c <= 7 -> 0 <= cmaxA c -> (cszxA c = 7 -> 1024 <= cmaxA c) ->
+  nth_error (cres c) (Z.to_nat (xpath x)) = Some r -> rlen r < 16 ->
+  xlen x < size (cszxA c) ->
+  let script := [Start i; Deliver 0; Deliver 0]%nat in
+  let tr := run c (init c) script in
+  Up.deliv_to 1 tr = [request_of x] /\ Up.deliv_to 0 tr = [Up.response_of c x r] /\
+  Forall (fun o => mo_err o = 0) tr /\ concat (map mo_ret tr) = [(Z.of_nat i, 0)] /\
+  mo_sizes (last tr Up.no_mob) = [0; 0; 0; 0] /\ flight (Up.exec c (init c) script) = [].
+Proof. exact Up.C04_write_small_delivered. Qed.
+Print Assumptions C04_progress_write_small.
+
+(* Upload AND download block-wise (Blockwise/ProofsProgressBoth.v): Do POST/PUT with a
+   block-wise request (outside O2) whose response is block-wise too, every SZX pair: one
+   delivery of the exact request at B, one of the exact response at A, no error, one ok
+   return in the last step, both endpoints back in their initial state, after
+   upload_rounds + download_rounds <= ceil(|request| / block) + ceil(|response| / block)
+   round trips.  (The response region of one block is O3 again: Both.C04_both_single_block.) *)
+Module Both := GoCoap.Blockwise.ProofsProgressBoth.
+Theorem C04_progress_upload_download : forall c i x r,
+  nth_error (cexch c) i = Some x -> xkind x = 0 -> xcode x = 2 \/ xcode x = 3 -> 0 <= xlen x ->
+  0 <= cszxA c <= 7 -> 0 <= cszxB c <= 7 -> 0 <= cmaxA c -> (cszxA c = 7 -> 1024 <= cmaxA c) ->
+  (Z.min (cszxA c) (cszxB c) = 7 -> 1024 <= cmaxB c) ->
+  size (cszxA c) < xlen x -> ~ Up.o2_region c (xlen x) ->
+  nth_error (cres c) (Z.to_nat (xpath x)) = Some r ->
+  let block := size (Z.min (cszxA c) (cszxB c)) in
+  let L2 := blen (res_body r 0) in
+  buffer_size (Z.min (cszxA c) (cszxB c)) (cmaxB c) < L2 ->
+  let rounds := Up.upload_rounds c (xlen x) + Both.download_rounds c L2 in
+  let n := (2 * Z.to_nat rounds)%nat in
+  let script := Start i :: repeat (Deliver 0) n in
+  let tr := run c (init c) script in
+  let wf := Up.exec c (init c) script in
+  Up.deliv_to 1 tr = [request_of x] /\ Up.deliv_to 0 tr = [Up.response_of c x r] /\
+  Forall (fun o => mo_err o = 0) tr /\
+  concat (map mo_ret tr) = [(Z.of_nat i, 0)] /\ mo_ret (last tr Up.no_mob) = [(Z.of_nat i, 0)] /\
+  mo_sizes (last tr Up.no_mob) = [0; 0; 0; 0] /\
+  wa wf = wa (init c) /\ wb wf = wb (init c) /\ flight wf = [] /\ pending wf = [] /\ vers wf = [] /\
+  2 <= Up.upload_rounds c (xlen x) /\ 1 <= Both.download_rounds c L2 /\
+  rounds <= (xlen x + block - 1) / block + (L2 + block - 1) / block.
+Proof. exact Both.C04_both_blockwise. Qed.
+Print Assumptions C04_progress_upload_download.
+
+(* Non-vacuity of the two-party theorems: two concurrent exchanges (a 40-byte POST with a
+   5-byte answer, token 7; a GET of a 50-byte resource with ETag, token 8) at SZX 0 / 1,
+   with interleaving, a duplicate, replays (also of final blocks), a resource change, a
+   drop, a time-out and the sweeps.  The hypotheses hold, bodies are handed over at both sides, and (by the
+   theorem, not by evaluation) the specification accepts the trace. *)
+Definition ex2_cfg : cfg :=
+  Cfg 0 1152 1 1152 [X 0 2 7 0 5 40 None; X 0 1 8 1 0 0 None] [R 11 5 false 42; R 13 50 true 50] [].
+Definition ex2_es : list ev :=
+  [Start 0; Start 1; Deliver 1; Deliver 0; Dup 0; Deliver 1; Deliver 0; Bump 1; Replay 2; Deliver 0; Deliver 0; Deliver 0;
+   Deliver 0; Replay 5; Deliver 0; Deliver 0; Drop 0; Deliver 0; Deliver 0; Replay 3; Deliver 0; Deliver 0; Deliver 0; Deliver 0;
+   Deliver 0; Deliver 0; Deliver 0; Deliver 0; Deliver 0; Deliver 0; Deliver 0; Deliver 0; Deliver 0; Deliver 0; Replay 9; Deliver 0;
+   Deliver 0; Timeout 1; Expire false; Expire true]%nat.
+Example C04_exchange_nonvacuous :
+  cfg_wf ex2_cfg /\ Forall (bump_ok ex2_cfg) ex2_es /\ small_upload_responses ex2_cfg ex2_es /\
+  c04_ok ex2_cfg ex2_es (model_obs ex2_cfg ex2_es) = true /\
+  (* the bodies handed over: (side, [(token, length)]) *)
+  map (fun o => (o_side o, map (fun d => (ptok d, plen d)) (o_deliv o)))
+      (filter (fun o => existsb (fun d => 0 <? plen d) (o_deliv o)) (model_obs ex2_cfg ex2_es))
+  = [(1, [(7, 40)]); (0, [(8, 50)]); (0, [(7, 5)])].
+Proof.
+  assert (Hwf : cfg_wf ex2_cfg).
+  { constructor; cbn [cszxA cszxB cmaxA cmaxB cexch cres coutside ex2_cfg]; try lia.
+    - intros x [<-|[<-|[]]]; cbn; unfold GET, DELETE, FRESH; repeat split; try lia; auto; intros; discriminate.
+    - intros x y [<-|[<-|[]]] [<-|[<-|[]]]; cbn; intros; try reflexivity; discriminate.
+    - intros x _. reflexivity.
+    - intros r [<-|[<-|[]]]; cbn; lia. }
+  assert (Hb : Forall (bump_ok ex2_cfg) ex2_es).
+  { repeat (constructor; try exact I). cbn. intros r E. injection E as <-. reflexivity. }
+  assert (Hs : small_upload_responses ex2_cfg ex2_es).
+  { intros x r v [<-|[<-|[]]] Hup Hr Hv; [|discriminate Hup].
+    cbn in Hr. injection Hr as <-. cbn [xpath] in Hv. replace (bumps ex2_es 0) with 0 in Hv by (vm_compute; reflexivity).
+    assert (v = 0) by lia. subst v. vm_compute. reflexivity. }
+  split; [exact Hwf|]. split; [exact Hb|]. split; [exact Hs|]. split; [apply C04_exchange_ok; assumption|].
+  vm_compute. reflexivity.
+Qed.
